@@ -5,6 +5,7 @@
 //!
 //! usage: cast --hist <file, one JSON chain per line> [--types all|name,name] [--rotate R] --out trace.ndjson
 //!        cast --list            (prints the type table)
+//!        --crashlog <file>      (names each scenario before running it; read by the driver after a crash)
 //!
 //! Tokens: component token t (1, 2, 3, ...) is the bit pattern `K::enc(t)`; `K::dec` is its exact inverse
 //! (anything that is not the image of a token decodes to -9), so the recorded token sequence is a
@@ -154,11 +155,25 @@ fn parse_chain(line: &str) -> (Init, Vec<Op>) {
 struct Cx<'r> {
     rec: &'r mut Rec,
     base: usize,
+    cur: Option<Op>, // the call in flight (for the scenario-level panic record)
 }
 
-fn unsupported(what: &str, op: &Op) -> ! {
-    eprintln!("cast harness: {} cannot take {:?} (specification and harness out of step)", what, op);
-    std::process::exit(3)
+/// run the chain; a panic of palette outside the places that expect one ends the scenario and is recorded
+/// as the outcome of the call that was in flight (the buffer it had been given is gone)
+fn run_chain<'r>(cx: &mut Cx<'r>, f: impl FnOnce(&mut Cx<'r>)) {
+    if catch(|| f(cx)).is_err() {
+        let op = cx.cur.clone().expect("panic outside a call");
+        log_cast(cx, &op, None, PANIC);
+    }
+}
+
+/// The chain asks for a call that the buffer we actually hold cannot take. That happens after palette's result
+/// has already departed from the specification (e.g. a buffer was accepted that should have been rejected): the
+/// event is recorded as such - TLC skips it after a rejection and rejects it otherwise - and the chain ends.
+fn unsupported(cx: &mut Cx, what: &str, op: &Op) {
+    let v = json!({"ev": "cast", "op": op.name, "api": op.api, "m": op.m, "err": -1, "form": "inapplicable", "unit": what,
+                   "len": 0, "cap": 0, "addr": 0, "data": [], "elsize": 0, "elalign": 0});
+    cx.rec.ev(v);
 }
 
 struct Obs {
@@ -262,16 +277,15 @@ fn observe<C: Col<K, N>, K: Comp, const N: usize>(b: &Buf<C, K, N>) -> Obs {
     let (sa, aa) = (size_of::<[K; N]>(), align_of::<[K; N]>());
     let (sk, ak) = (size_of::<K>(), align_of::<K>());
     let o = |form, unit, len, cap, ptr, data, (elsize, elalign)| Obs { form, unit, len, cap, ptr, data, elsize, elalign };
-    let one = core::slice::from_ref;
     match b {
-        ValC(c) => o("value", "colour", 1, 1, 0, dc(one(c)), (sc, ac)),
-        ValA(a) => o("value", "array", 1, 1, 0, da(one(a)), (sa, aa)),
-        RefC(c) => o("ref", "colour", 1, 1, *c as *const C as usize, dc(one(*c)), (sc, ac)),
-        RefA(a) => o("ref", "array", 1, 1, *a as *const [K; N] as usize, da(one(*a)), (sa, aa)),
-        MutC(c) => o("mut", "colour", 1, 1, &**c as *const C as usize, dc(one(&**c)), (sc, ac)),
-        MutA(a) => o("mut", "array", 1, 1, &**a as *const [K; N] as usize, da(one(&**a)), (sa, aa)),
-        BoxC(c) => o("box", "colour", 1, 1, &**c as *const C as usize, dc(one(&**c)), (sc, ac)),
-        BoxA(a) => o("box", "array", 1, 1, &**a as *const [K; N] as usize, da(one(&**a)), (sa, aa)),
+        ValC(c) => o("value", "colour", 1, 1, 0, dc(core::slice::from_ref(c)), (sc, ac)),
+        ValA(a) => o("value", "array", 1, 1, 0, da(core::slice::from_ref(a)), (sa, aa)),
+        RefC(c) => o("ref", "colour", 1, 1, *c as *const C as usize, dc(core::slice::from_ref(*c)), (sc, ac)),
+        RefA(a) => o("ref", "array", 1, 1, *a as *const [K; N] as usize, da(core::slice::from_ref(*a)), (sa, aa)),
+        MutC(c) => o("mut", "colour", 1, 1, &**c as *const C as usize, dc(core::slice::from_ref(&**c)), (sc, ac)),
+        MutA(a) => o("mut", "array", 1, 1, &**a as *const [K; N] as usize, da(core::slice::from_ref(&**a)), (sa, aa)),
+        BoxC(c) => o("box", "colour", 1, 1, &**c as *const C as usize, dc(core::slice::from_ref(&**c)), (sc, ac)),
+        BoxA(a) => o("box", "array", 1, 1, &**a as *const [K; N] as usize, da(core::slice::from_ref(&**a)), (sa, aa)),
         ArrC(x) => o("array", "colour", 2, 2, 0, dc(&x[..]), (sc, ac)),
         ArrA(x) => o("array", "array", 2, 2, 0, da(&x[..]), (sa, aa)),
         ArrK(v) => o("array", "component", v.len(), v.len(), 0, dk(v), (sk, ak)),
@@ -317,16 +331,17 @@ fn exec<C: Col<K, N>, K: Comp, const N: usize>(buf: Buf<C, K, N>, ops: &[Op], cx
     use Buf::*;
     let Some((op, rest)) = ops.split_first() else { return };
     let (a, m) = (op.api, op.m);
+    cx.cur = Some(op.clone());
     // run a palette call that takes the buffer by value / by the reference we hold
     macro_rules! st {
         ($v:ident, $e:expr) => {
-            step(catch(move || $e).map(|x| (Buf::<C, K, N>::$v(x), OK)), op, rest, cx)
+            step(Ok((Buf::<C, K, N>::$v($e), OK)), op, rest, cx)
         };
     }
     // run a palette call that borrows from the local holder, which stays alive below the rest of the chain
     macro_rules! bw {
         ($v:ident, $e:expr) => {
-            step(catch(|| $e).map(|x| (Buf::<C, K, N>::$v(x), OK)), op, rest, cx)
+            step(Ok((Buf::<C, K, N>::$v($e), OK)), op, rest, cx)
         };
     }
     match (op.name.as_str(), buf) {
@@ -462,40 +477,30 @@ fn exec<C: Col<K, N>, K: Comp, const N: usize>(buf: Buf<C, K, N>, ops: &[Op], cx
         ("try_from_component", b) => exec_try(b, op, rest, cx),
         ("from_component", b) => exec_from(b, op, rest, cx),
         // ------------------------------------------------------------------ map_*_in_place
-        ("map", VecC(v)) => match catch(move || cast::map_vec_in_place::<C, C::Partner, _>(v, map_fn::<C, K, N>)) {
-            Ok(w) => {
-                let nb = Buf::<C::Partner, K, N>::VecC(w);
-                log_cast(cx, op, Some(&observe(&nb)), OK);
-                exec(nb, rest, cx)
-            }
-            Err(_) => log_cast(cx, op, None, PANIC),
-        },
-        ("map", BsC(v)) => match catch(move || cast::map_slice_box_in_place::<C, C::Partner, _>(v, map_fn::<C, K, N>)) {
-            Ok(w) => {
-                let nb = Buf::<C::Partner, K, N>::BsC(w);
-                log_cast(cx, op, Some(&observe(&nb)), OK);
-                exec(nb, rest, cx)
-            }
-            Err(_) => log_cast(cx, op, None, PANIC),
-        },
+        ("map", VecC(v)) => {
+            let w = cast::map_vec_in_place::<C, C::Partner, _>(v, map_fn::<C, K, N>);
+            step(Ok((Buf::<C::Partner, K, N>::VecC(w), OK)), op, rest, cx)
+        }
+        ("map", BsC(v)) => {
+            let w = cast::map_slice_box_in_place::<C, C::Partner, _>(v, map_fn::<C, K, N>);
+            step(Ok((Buf::<C::Partner, K, N>::BsC(w), OK)), op, rest, cx)
+        }
         // ------------------------------------------------------------------ one colour <-> exactly n components
         ("ref_as_slice", RefC(c)) => st!(SlK, c.s_ref_slice()),
         ("ref_as_slice", MutC(c)) => st!(SmK, mv(c).s_mut_slice()),
-        ("try_slice_as_ref", SlK(s)) => match catch(|| C::s_try_ref(s)) {
-            Ok(Some(c)) => step(Ok((RefC::<C, K, N>(c), OK)), op, rest, cx),
-            Ok(None) => step(Ok((SlK::<C, K, N>(s), EXACT)), op, rest, cx),
-            Err(e) => step::<C, K, N>(Err(e), op, rest, cx),
+        ("try_slice_as_ref", SlK(s)) => match C::s_try_ref(s) {
+            Some(c) => step(Ok((RefC::<C, K, N>(c), OK)), op, rest, cx),
+            None => step(Ok((SlK::<C, K, N>(s), EXACT)), op, rest, cx),
         },
         ("try_slice_as_ref", SmK(s)) => {
             let p: *mut [K] = s;
             // SAFETY (harness): at most one of the two reborrows of *p is ever used
-            match catch(|| C::s_try_mut(unsafe { &mut *p })) {
-                Ok(Some(c)) => step(Ok((MutC::<C, K, N>(c), OK)), op, rest, cx),
-                Ok(None) => step(Ok((SmK::<C, K, N>(unsafe { &mut *p }), EXACT)), op, rest, cx),
-                Err(e) => step::<C, K, N>(Err(e), op, rest, cx),
+            match C::s_try_mut(unsafe { &mut *p }) {
+                Some(c) => step(Ok((MutC::<C, K, N>(c), OK)), op, rest, cx),
+                None => step(Ok((SmK::<C, K, N>(unsafe { &mut *p }), EXACT)), op, rest, cx),
             }
         }
-        (_, b) => unsupported(&format!("{}/{}", observe(&b).form, observe(&b).unit), op),
+        (_, b) => unsupported(cx, &format!("{}/{}", observe(&b).form, observe(&b).unit), op),
     }
 }
 
@@ -503,16 +508,8 @@ fn exec<C: Col<K, N>, K: Comp, const N: usize>(buf: Buf<C, K, N>, ops: &[Op], cx
 fn exec_try<C: Col<K, N>, K: Comp, const N: usize>(buf: Buf<C, K, N>, op: &Op, rest: &[Op], cx: &mut Cx) {
     use Buf::*;
     let (a, m) = (op.api, op.m);
-    macro_rules! fin {
-        ($r:expr) => {
-            match $r {
-                Ok(x) => step(Ok(x), op, rest, cx),
-                Err(e) => step::<C, K, N>(Err(e), op, rest, cx),
-            }
-        };
-    }
-    match buf {
-        SlK(s) => fin!(catch(|| {
+    let out: (Buf<C, K, N>, i64) = match buf {
+        SlK(s) => {
             let r = match a {
                 0 => cast::try_from_component_slice::<C>(s),
                 1 => <&[C]>::try_from_components(s),
@@ -520,87 +517,78 @@ fn exec_try<C: Col<K, N>, K: Comp, const N: usize>(buf: Buf<C, K, N>, op: &Op, r
                 _ => TryComponentsAs::<[C]>::try_components_as(s),
             };
             match r { Ok(v) => (SlC(v), OK), Err(_) => (SlK(s), LENGTH) }
-        })),
+        }
         SmK(s) => {
             let p: *mut [K] = s;
             // SAFETY (harness): the error value does not borrow the slice; only one reborrow of *p is used
-            fin!(catch(|| {
-                let s = unsafe { &mut *p };
-                if m == 0 && a == 2 {
-                    match TryComponentsAs::<[C]>::try_components_as(&*s) { Ok(v) => (SlC(v), OK), Err(_) => (SmK(unsafe { &mut *p }), LENGTH) }
-                } else {
-                    let r = match a {
-                        0 => cast::try_from_component_slice_mut::<C>(s),
-                        1 => <&mut [C]>::try_from_components(s),
-                        3 => TryComponentsInto::<&mut [C]>::try_components_into(s),
-                        _ => TryComponentsAsMut::<[C]>::try_components_as_mut(s),
-                    };
-                    match r { Ok(v) => (SmC(v), OK), Err(_) => (SmK(unsafe { &mut *p }), LENGTH) }
-                }
-            }))
+            let s = unsafe { &mut *p };
+            if m == 0 && a == 2 {
+                match TryComponentsAs::<[C]>::try_components_as(&*s) { Ok(v) => (SlC(v), OK), Err(_) => (SmK(unsafe { &mut *p }), LENGTH) }
+            } else {
+                let r = match a {
+                    0 => cast::try_from_component_slice_mut::<C>(s),
+                    1 => <&mut [C]>::try_from_components(s),
+                    3 => TryComponentsInto::<&mut [C]>::try_components_into(s),
+                    _ => TryComponentsAsMut::<[C]>::try_components_as_mut(s),
+                };
+                match r { Ok(v) => (SmC(v), OK), Err(_) => (SmK(unsafe { &mut *p }), LENGTH) }
+            }
         }
         BsK(mut b) => match (a, m) {
-            (0, _) | (1, _) | (3, _) => fin!(catch(move || {
+            (0, _) | (1, _) | (3, _) => {
                 let r = match a {
                     0 => cast::try_from_component_slice_box::<C>(b),
                     1 => Box::<[C]>::try_from_components(b),
                     _ => TryComponentsInto::<Box<[C]>>::try_components_into(b),
                 };
                 match r { Ok(v) => (BsC(v), OK), Err(e) => (BsK(e.values), LENGTH) }
-            })),
+            }
             (_, 0) => {
-                let r = catch(|| if a == 2 { TryComponentsAs::<[C]>::try_components_as(&b).ok() } else { <&[C]>::try_from_components(&b).ok() });
-                match r {
-                    Ok(Some(v)) => step(Ok((SlC::<C, K, N>(v), OK)), op, rest, cx),
-                    Ok(None) => step(Ok((BsK::<C, K, N>(b), LENGTH)), op, rest, cx),
-                    Err(e) => step::<C, K, N>(Err(e), op, rest, cx),
-                }
+                let r = if a == 2 { TryComponentsAs::<[C]>::try_components_as(&b).ok() } else { <&[C]>::try_from_components(&b).ok() };
+                return match r {
+                    Some(v) => step(Ok((SlC::<C, K, N>(v), OK)), op, rest, cx),
+                    None => step(Ok((BsK::<C, K, N>(b), LENGTH)), op, rest, cx),
+                };
             }
             (_, _) => {
                 let p: *mut Box<[K]> = &mut b;
-                let r = catch(|| {
-                    let bb = unsafe { &mut *p };
-                    if a == 2 { TryComponentsAsMut::<[C]>::try_components_as_mut(bb).ok() } else { <&mut [C]>::try_from_components(bb).ok() }
-                });
-                match r {
-                    Ok(Some(v)) => step(Ok((SmC::<C, K, N>(v), OK)), op, rest, cx),
-                    Ok(None) => step(Ok((BsK::<C, K, N>(b), LENGTH)), op, rest, cx),
-                    Err(e) => step::<C, K, N>(Err(e), op, rest, cx),
-                }
+                let bb = unsafe { &mut *p };
+                let r = if a == 2 { TryComponentsAsMut::<[C]>::try_components_as_mut(bb).ok() } else { <&mut [C]>::try_from_components(bb).ok() };
+                return match r {
+                    Some(v) => step(Ok((SmC::<C, K, N>(v), OK)), op, rest, cx),
+                    None => step(Ok((BsK::<C, K, N>(b), LENGTH)), op, rest, cx),
+                };
             }
         },
         VecK(mut v) => match (a, m) {
-            (0, _) | (1, _) | (3, _) => fin!(catch(move || {
+            (0, _) | (1, _) | (3, _) => {
                 let r = match a {
                     0 => cast::try_from_component_vec::<C>(v),
                     1 => Vec::<C>::try_from_components(v),
                     _ => TryComponentsInto::<Vec<C>>::try_components_into(v),
                 };
                 match r { Ok(w) => (VecC(w), OK), Err(e) => { let k = vec_err(e.kind); (VecK(e.values), k) } }
-            })),
+            }
             (_, 0) => {
-                let r = catch(|| if a == 2 { TryComponentsAs::<[C]>::try_components_as(&v).ok() } else { <&[C]>::try_from_components(&v).ok() });
-                match r {
-                    Ok(Some(w)) => step(Ok((SlC::<C, K, N>(w), OK)), op, rest, cx),
-                    Ok(None) => step(Ok((VecK::<C, K, N>(v), LENGTH)), op, rest, cx),
-                    Err(e) => step::<C, K, N>(Err(e), op, rest, cx),
-                }
+                let r = if a == 2 { TryComponentsAs::<[C]>::try_components_as(&v).ok() } else { <&[C]>::try_from_components(&v).ok() };
+                return match r {
+                    Some(w) => step(Ok((SlC::<C, K, N>(w), OK)), op, rest, cx),
+                    None => step(Ok((VecK::<C, K, N>(v), LENGTH)), op, rest, cx),
+                };
             }
             (_, _) => {
                 let p: *mut Vec<K> = &mut v;
-                let r = catch(|| {
-                    let vv = unsafe { &mut *p };
-                    if a == 2 { TryComponentsAsMut::<[C]>::try_components_as_mut(vv).ok() } else { <&mut [C]>::try_from_components(vv).ok() }
-                });
-                match r {
-                    Ok(Some(w)) => step(Ok((SmC::<C, K, N>(w), OK)), op, rest, cx),
-                    Ok(None) => step(Ok((VecK::<C, K, N>(v), LENGTH)), op, rest, cx),
-                    Err(e) => step::<C, K, N>(Err(e), op, rest, cx),
-                }
+                let vv = unsafe { &mut *p };
+                let r = if a == 2 { TryComponentsAsMut::<[C]>::try_components_as_mut(vv).ok() } else { <&mut [C]>::try_from_components(vv).ok() };
+                return match r {
+                    Some(w) => step(Ok((SmC::<C, K, N>(w), OK)), op, rest, cx),
+                    None => step(Ok((VecK::<C, K, N>(v), LENGTH)), op, rest, cx),
+                };
             }
         },
-        b => unsupported(&format!("{}/{}", observe(&b).form, observe(&b).unit), op),
-    }
+        b => return unsupported(cx, &format!("{}/{}", observe(&b).form, observe(&b).unit), op),
+    };
+    step(Ok(out), op, rest, cx)
 }
 
 /// from_component_* (panicking): Ok -> colours; a panic consumes a buffer passed by value and leaves a borrowed one alone
@@ -609,13 +597,13 @@ fn exec_from<C: Col<K, N>, K: Comp, const N: usize>(buf: Buf<C, K, N>, op: &Op, 
     let (a, m) = (op.api, op.m);
     macro_rules! st {
         ($v:ident, $e:expr) => {
-            step(catch(move || $e).map(|x| (Buf::<C, K, N>::$v(x), OK)), op, rest, cx)
+            step(Ok((Buf::<C, K, N>::$v($e), OK)), op, rest, cx)
         };
     }
     match buf {
         ArrK(v) => {
             if v.len() != 2 * N && v.len() != 2 * N + 1 {
-                unsupported("component array of this length", op)
+                return unsupported(cx, "component array of this length", op);
             }
             st!(ArrC, C::a_from_components(&v, a))
         }
@@ -695,6 +683,679 @@ fn exec_from<C: Col<K, N>, K: Comp, const N: usize>(buf: Buf<C, K, N>, op: &Op, 
                 }
             }
         },
-        b => unsupported(&format!("{}/{}", observe(&b).form, observe(&b).unit), op),
+        b => unsupported(cx, &format!("{}/{}", observe(&b).form, observe(&b).unit), op),
     }
+}
+
+fn reset_event<C: Col<K, N>, K: Comp, const N: usize>(o: &Obs, cx: &mut Cx) {
+    let mut v = obs_json(o, cx.base);
+    let m = v.as_object_mut().unwrap();
+    m.insert("ev".into(), json!("reset"));
+    m.insert("ty".into(), json!(C::TY));
+    m.insert("base".into(), json!(C::BASE));
+    m.insert("wrap".into(), json!(C::WRAP));
+    m.insert("comp".into(), json!(K::NAME));
+    m.insert("fam".into(), json!("arr"));
+    m.insert("n".into(), json!(N));
+    m.insert("names".into(), json!(C::names()));
+    m.insert("csize".into(), json!(size_of::<K>()));
+    m.insert("calign".into(), json!(align_of::<K>()));
+    cx.rec.ev(v);
+}
+
+/// Vec with exactly the requested capacity, or None when the allocator gave something else
+fn vec_cap<T>(cap: usize, items: impl Iterator<Item = T>) -> Option<Vec<T>> {
+    let mut v = Vec::with_capacity(cap);
+    v.extend(items);
+    if v.capacity() == cap { Some(v) } else { None }
+}
+
+/// build the initial buffer of a scenario on the real type, record it, run the chain; false = skipped
+fn run_arr<C: Col<K, N>, K: Comp, const N: usize>(ini: &Init, ops: &[Op], rec: &mut Rec) -> bool {
+    use Buf::*;
+    let tok = |i: usize| K::enc(i as i64 + 1);
+    let mk_a = |k: usize| -> [K; N] { core::array::from_fn(|j| tok(k * N + j)) };
+    let mk_c = |k: usize| C::make(mk_a(k));
+    let (len, cap) = (ini.len, ini.cap);
+    let mut cx = Cx { rec, base: 0, cur: None };
+    macro_rules! start {
+        ($b:expr) => {{
+            let b: Buf<C, K, N> = $b;
+            let o = observe(&b);
+            cx.base = o.ptr;
+            reset_event::<C, K, N>(&o, &mut cx);
+            run_chain(&mut cx, |cx| exec(b, ops, cx));
+            true
+        }};
+    }
+    match (ini.form.as_str(), ini.unit.as_str()) {
+        ("value", "colour") => start!(ValC(mk_c(0))),
+        ("value", "array") => start!(ValA(mk_a(0))),
+        ("ref", "colour") => { let c = mk_c(0); start!(RefC(&c)) }
+        ("ref", "array") => { let x = mk_a(0); start!(RefA(&x)) }
+        ("mut", "colour") => { let mut c = mk_c(0); start!(MutC(&mut c)) }
+        ("mut", "array") => { let mut x = mk_a(0); start!(MutA(&mut x)) }
+        ("box", "colour") => start!(BoxC(Box::new(mk_c(0)))),
+        ("box", "array") => start!(BoxA(Box::new(mk_a(0)))),
+        ("array", "colour") => start!(ArrC([mk_c(0), mk_c(1)])),
+        ("array", "array") => start!(ArrA([mk_a(0), mk_a(1)])),
+        ("array", "component") => start!(ArrK((0..len).map(tok).collect())),
+        ("slice", "colour") => { let v: Vec<C> = (0..len).map(mk_c).collect(); start!(SlC(&v)) }
+        ("slice", "array") => { let v: Vec<[K; N]> = (0..len).map(mk_a).collect(); start!(SlA(&v)) }
+        ("slice", "component") => { let v: Vec<K> = (0..len).map(tok).collect(); start!(SlK(&v)) }
+        ("slice_mut", "colour") => { let mut v: Vec<C> = (0..len).map(mk_c).collect(); start!(SmC(&mut v)) }
+        ("slice_mut", "array") => { let mut v: Vec<[K; N]> = (0..len).map(mk_a).collect(); start!(SmA(&mut v)) }
+        ("slice_mut", "component") => { let mut v: Vec<K> = (0..len).map(tok).collect(); start!(SmK(&mut v)) }
+        ("boxed_slice", "colour") => start!(BsC((0..len).map(mk_c).collect::<Vec<C>>().into_boxed_slice())),
+        ("boxed_slice", "array") => start!(BsA((0..len).map(mk_a).collect::<Vec<[K; N]>>().into_boxed_slice())),
+        ("boxed_slice", "component") => start!(BsK((0..len).map(tok).collect::<Vec<K>>().into_boxed_slice())),
+        ("vec", "colour") => match vec_cap(cap, (0..len).map(mk_c)) { Some(v) => start!(VecC(v)), None => false },
+        ("vec", "array") => match vec_cap(cap, (0..len).map(mk_a)) { Some(v) => start!(VecA(v)), None => false },
+        ("vec", "component") => match vec_cap(cap, (0..len).map(tok)) { Some(v) => start!(VecK(v)), None => false },
+        (f, u) => { eprintln!("cast harness: no initial buffer {}/{}", f, u); std::process::exit(3) }
+    }
+}
+
+// ------------------------------------------------------------------------------------------- UintCast family
+
+trait UCol<U: Comp>: UintCast<Uint = U> + Sized + 'static {
+    const TY: &'static str;
+    const BASE: &'static str;
+    fn names() -> Vec<&'static str>;
+    fn make(u: U) -> Self; // BY FIELD NAME
+    fn read(&self) -> U; // BY FIELD NAME
+    fn s_into(self) -> U;
+    fn s_from(u: U) -> Self;
+    fn s_ref_into(&self) -> &U;
+    fn s_ref_from(u: &U) -> &Self;
+    fn s_mut_into(&mut self) -> &mut U;
+    fn s_mut_from(u: &mut U) -> &mut Self;
+}
+
+enum UBuf<'a, C, U> {
+    ValC(C),
+    ValU(U),
+    RefC(&'a C),
+    RefU(&'a U),
+    MutC(&'a mut C),
+    MutU(&'a mut U),
+    ArrC([C; 2]),
+    ArrU([U; 2]),
+    SlC(&'a [C]),
+    SlU(&'a [U]),
+    SmC(&'a mut [C]),
+    SmU(&'a mut [U]),
+    BsC(Box<[C]>),
+    BsU(Box<[U]>),
+    VecC(Vec<C>),
+    VecU(Vec<U>),
+}
+
+fn uobserve<C: UCol<U>, U: Comp>(b: &UBuf<C, U>) -> Obs {
+    use UBuf::*;
+    let (sc, ac) = (size_of::<C>(), align_of::<C>());
+    let (su, au) = (size_of::<U>(), align_of::<U>());
+    let rc = |s: &[C]| -> Vec<i64> { s.iter().map(|c| c.read().dec()).collect() };
+    let o = |form, unit, len, cap, ptr, data, (elsize, elalign)| Obs { form, unit, len, cap, ptr, data, elsize, elalign };
+    let one_c = core::slice::from_ref::<C>;
+    let one_u = core::slice::from_ref::<U>;
+    match b {
+        ValC(c) => o("value", "colour", 1, 1, 0, rc(one_c(c)), (sc, ac)),
+        ValU(u) => o("value", "uint", 1, 1, 0, dk(one_u(u)), (su, au)),
+        RefC(c) => o("ref", "colour", 1, 1, *c as *const C as usize, rc(one_c(*c)), (sc, ac)),
+        RefU(u) => o("ref", "uint", 1, 1, *u as *const U as usize, dk(one_u(*u)), (su, au)),
+        MutC(c) => o("mut", "colour", 1, 1, &**c as *const C as usize, rc(one_c(&**c)), (sc, ac)),
+        MutU(u) => o("mut", "uint", 1, 1, &**u as *const U as usize, dk(one_u(&**u)), (su, au)),
+        ArrC(x) => o("array", "colour", 2, 2, 0, rc(&x[..]), (sc, ac)),
+        ArrU(x) => o("array", "uint", 2, 2, 0, dk(&x[..]), (su, au)),
+        SlC(s) => o("slice", "colour", s.len(), s.len(), s.as_ptr() as usize, rc(s), (sc, ac)),
+        SlU(s) => o("slice", "uint", s.len(), s.len(), s.as_ptr() as usize, dk(s), (su, au)),
+        SmC(s) => o("slice_mut", "colour", s.len(), s.len(), s.as_ptr() as usize, rc(s), (sc, ac)),
+        SmU(s) => o("slice_mut", "uint", s.len(), s.len(), s.as_ptr() as usize, dk(s), (su, au)),
+        BsC(s) => o("boxed_slice", "colour", s.len(), s.len(), s.as_ptr() as usize, rc(s), (sc, ac)),
+        BsU(s) => o("boxed_slice", "uint", s.len(), s.len(), s.as_ptr() as usize, dk(s), (su, au)),
+        VecC(s) => o("vec", "colour", s.len(), s.capacity(), s.as_ptr() as usize, rc(s), (sc, ac)),
+        VecU(s) => o("vec", "uint", s.len(), s.capacity(), s.as_ptr() as usize, dk(s), (su, au)),
+    }
+}
+
+fn ustep<C: UCol<U>, U: Comp>(r: Result<UBuf<C, U>, String>, op: &Op, rest: &[Op], cx: &mut Cx) {
+    match r {
+        Ok(b) => {
+            let o = uobserve(&b);
+            log_cast(cx, op, Some(&o), OK);
+            uexec(b, rest, cx)
+        }
+        Err(_) => log_cast(cx, op, None, PANIC),
+    }
+}
+
+fn uexec<C: UCol<U>, U: Comp>(buf: UBuf<C, U>, ops: &[Op], cx: &mut Cx) {
+    use UBuf::*;
+    let Some((op, rest)) = ops.split_first() else { return };
+    let (a, m) = (op.api, op.m);
+    cx.cur = Some(op.clone());
+    macro_rules! st {
+        ($v:ident, $e:expr) => {
+            ustep(Ok(UBuf::<C, U>::$v($e)), op, rest, cx)
+        };
+    }
+    macro_rules! bw {
+        ($v:ident, $e:expr) => {
+            ustep(Ok(UBuf::<C, U>::$v($e)), op, rest, cx)
+        };
+    }
+    match (op.name.as_str(), buf) {
+        ("into_uint", ValC(c)) => st!(ValU, if a == 0 { cast::into_uint(c) } else { c.s_into() }),
+        ("into_uint", RefC(c)) => st!(RefU, if a == 0 { cast::into_uint_ref(c) } else { c.s_ref_into() }),
+        ("into_uint", MutC(c)) => st!(MutU, if a == 0 { cast::into_uint_mut(mv(c)) } else { mv(c).s_mut_into() }),
+        ("into_uint", ArrC(mut x)) => match (a, m) {
+            (0, _) => st!(ArrU, cast::into_uint_array(x)),
+            (1, _) => st!(ArrU, IntoUints::<[U; 2]>::into_uints(x)),
+            (3, _) => st!(ArrU, <[U; 2]>::uints_from(x)),
+            (2, 0) => { cx.base = x.as_ptr() as usize; bw!(SlU, AsUints::<[U]>::as_uints(&x)) }
+            (2, _) => { cx.base = x.as_ptr() as usize; bw!(SmU, AsUintsMut::<[U]>::as_uints_mut(&mut x)) }
+            (_, 0) => { cx.base = x.as_ptr() as usize; bw!(SlU, IntoUints::<&[U]>::into_uints(&x)) }
+            (_, _) => { cx.base = x.as_ptr() as usize; bw!(SmU, IntoUints::<&mut [U]>::into_uints(&mut x)) }
+        },
+        ("into_uint", SlC(s)) => match a {
+            0 => st!(SlU, cast::into_uint_slice(s)),
+            1 => st!(SlU, IntoUints::<&[U]>::into_uints(s)),
+            3 => st!(SlU, <&[U]>::uints_from(s)),
+            _ => st!(SlU, AsUints::<[U]>::as_uints(s)),
+        },
+        ("into_uint", SmC(s)) => match (a, m) {
+            (0, _) => st!(SmU, cast::into_uint_slice_mut(mv(s))),
+            (1, _) => st!(SmU, IntoUints::<&mut [U]>::into_uints(mv(s))),
+            (3, _) => st!(SmU, <&mut [U]>::uints_from(mv(s))),
+            (_, 0) => st!(SlU, AsUints::<[U]>::as_uints(&*mv(s))),
+            (_, _) => st!(SmU, AsUintsMut::<[U]>::as_uints_mut(mv(s))),
+        },
+        ("into_uint", BsC(mut b)) => match (a, m) {
+            (0, _) => st!(BsU, cast::into_uint_slice_box(b)),
+            (1, _) => st!(BsU, IntoUints::<Box<[U]>>::into_uints(b)),
+            (3, _) => st!(BsU, Box::<[U]>::uints_from(b)),
+            (2, 0) => bw!(SlU, AsUints::<[U]>::as_uints(&b)),
+            (2, _) => bw!(SmU, AsUintsMut::<[U]>::as_uints_mut(&mut b)),
+            (_, 0) => bw!(SlU, IntoUints::<&[U]>::into_uints(&b)),
+            (_, _) => bw!(SmU, IntoUints::<&mut [U]>::into_uints(&mut b)),
+        },
+        ("into_uint", VecC(mut v)) => match (a, m) {
+            (0, _) => st!(VecU, cast::into_uint_vec(v)),
+            (1, _) => st!(VecU, IntoUints::<Vec<U>>::into_uints(v)),
+            (3, _) => st!(VecU, Vec::<U>::uints_from(v)),
+            (2, 0) => bw!(SlU, AsUints::<[U]>::as_uints(&v)),
+            (2, _) => bw!(SmU, AsUintsMut::<[U]>::as_uints_mut(&mut v)),
+            (_, 0) => bw!(SlU, IntoUints::<&[U]>::into_uints(&v)),
+            (_, _) => bw!(SmU, IntoUints::<&mut [U]>::into_uints(&mut v)),
+        },
+        ("from_uint", ValU(u)) => st!(ValC, if a == 0 { cast::from_uint::<C>(u) } else { C::s_from(u) }),
+        ("from_uint", RefU(u)) => st!(RefC, if a == 0 { cast::from_uint_ref::<C>(u) } else { C::s_ref_from(u) }),
+        ("from_uint", MutU(u)) => st!(MutC, if a == 0 { cast::from_uint_mut::<C>(mv(u)) } else { C::s_mut_from(mv(u)) }),
+        ("from_uint", ArrU(mut x)) => match (a, m) {
+            (0, _) => st!(ArrC, cast::from_uint_array::<C, 2>(x)),
+            (1, _) => st!(ArrC, <[C; 2]>::from_uints(x)),
+            (3, _) => st!(ArrC, UintsInto::<[C; 2]>::uints_into(x)),
+            (2, 0) => { cx.base = x.as_ptr() as usize; bw!(SlC, UintsAs::<[C]>::uints_as(&x)) }
+            (2, _) => { cx.base = x.as_ptr() as usize; bw!(SmC, UintsAsMut::<[C]>::uints_as_mut(&mut x)) }
+            (_, 0) => { cx.base = x.as_ptr() as usize; bw!(SlC, <&[C]>::from_uints(&x)) }
+            (_, _) => { cx.base = x.as_ptr() as usize; bw!(SmC, <&mut [C]>::from_uints(&mut x)) }
+        },
+        ("from_uint", SlU(s)) => match a {
+            0 => st!(SlC, cast::from_uint_slice::<C>(s)),
+            1 => st!(SlC, <&[C]>::from_uints(s)),
+            3 => st!(SlC, UintsInto::<&[C]>::uints_into(s)),
+            _ => st!(SlC, UintsAs::<[C]>::uints_as(s)),
+        },
+        ("from_uint", SmU(s)) => match (a, m) {
+            (0, _) => st!(SmC, cast::from_uint_slice_mut::<C>(mv(s))),
+            (1, _) => st!(SmC, <&mut [C]>::from_uints(mv(s))),
+            (3, _) => st!(SmC, UintsInto::<&mut [C]>::uints_into(mv(s))),
+            (_, 0) => st!(SlC, UintsAs::<[C]>::uints_as(&*mv(s))),
+            (_, _) => st!(SmC, UintsAsMut::<[C]>::uints_as_mut(mv(s))),
+        },
+        ("from_uint", BsU(mut b)) => match (a, m) {
+            (0, _) => st!(BsC, cast::from_uint_slice_box::<C>(b)),
+            (1, _) => st!(BsC, Box::<[C]>::from_uints(b)),
+            (3, _) => st!(BsC, UintsInto::<Box<[C]>>::uints_into(b)),
+            (2, 0) => bw!(SlC, UintsAs::<[C]>::uints_as(&b)),
+            (2, _) => bw!(SmC, UintsAsMut::<[C]>::uints_as_mut(&mut b)),
+            (_, 0) => bw!(SlC, <&[C]>::from_uints(&b)),
+            (_, _) => bw!(SmC, <&mut [C]>::from_uints(&mut b)),
+        },
+        ("from_uint", VecU(mut v)) => match (a, m) {
+            (0, _) => st!(VecC, cast::from_uint_vec::<C>(v)),
+            (1, _) => st!(VecC, Vec::<C>::from_uints(v)),
+            (3, _) => st!(VecC, UintsInto::<Vec<C>>::uints_into(v)),
+            (2, 0) => bw!(SlC, UintsAs::<[C]>::uints_as(&v)),
+            (2, _) => bw!(SmC, UintsAsMut::<[C]>::uints_as_mut(&mut v)),
+            (_, 0) => bw!(SlC, <&[C]>::from_uints(&v)),
+            (_, _) => bw!(SmC, <&mut [C]>::from_uints(&mut v)),
+        },
+        (_, b) => unsupported(cx, &format!("{}/{}", uobserve(&b).form, uobserve(&b).unit), op),
+    }
+}
+
+fn run_uint<C: UCol<U>, U: Comp>(ini: &Init, ops: &[Op], rec: &mut Rec) -> bool {
+    use UBuf::*;
+    let tok = |i: usize| U::enc(i as i64 + 1);
+    let mk_c = |i: usize| C::make(tok(i));
+    let (len, cap) = (ini.len, ini.cap);
+    let mut cx = Cx { rec, base: 0, cur: None };
+    macro_rules! start {
+        ($b:expr) => {{
+            let b: UBuf<C, U> = $b;
+            let o = uobserve(&b);
+            cx.base = o.ptr;
+            let mut v = obs_json(&o, cx.base);
+            let mm = v.as_object_mut().unwrap();
+            mm.insert("ev".into(), json!("reset"));
+            mm.insert("ty".into(), json!(C::TY));
+            mm.insert("base".into(), json!(C::BASE));
+            mm.insert("wrap".into(), json!("none"));
+            mm.insert("comp".into(), json!(U::NAME));
+            mm.insert("fam".into(), json!("uint"));
+            mm.insert("n".into(), json!(1));
+            mm.insert("names".into(), json!(C::names()));
+            mm.insert("csize".into(), json!(size_of::<U>()));
+            mm.insert("calign".into(), json!(align_of::<U>()));
+            cx.rec.ev(v);
+            run_chain(&mut cx, |cx| uexec(b, ops, cx));
+            true
+        }};
+    }
+    match (ini.form.as_str(), ini.unit.as_str()) {
+        ("value", "colour") => start!(ValC(mk_c(0))),
+        ("value", "uint") => start!(ValU(tok(0))),
+        ("ref", "colour") => { let c = mk_c(0); start!(RefC(&c)) }
+        ("ref", "uint") => { let u = tok(0); start!(RefU(&u)) }
+        ("mut", "colour") => { let mut c = mk_c(0); start!(MutC(&mut c)) }
+        ("mut", "uint") => { let mut u = tok(0); start!(MutU(&mut u)) }
+        ("array", "colour") => start!(ArrC([mk_c(0), mk_c(1)])),
+        ("array", "uint") => start!(ArrU([tok(0), tok(1)])),
+        ("slice", "colour") => { let v: Vec<C> = (0..len).map(mk_c).collect(); start!(SlC(&v)) }
+        ("slice", "uint") => { let v: Vec<U> = (0..len).map(tok).collect(); start!(SlU(&v)) }
+        ("slice_mut", "colour") => { let mut v: Vec<C> = (0..len).map(mk_c).collect(); start!(SmC(&mut v)) }
+        ("slice_mut", "uint") => { let mut v: Vec<U> = (0..len).map(tok).collect(); start!(SmU(&mut v)) }
+        ("boxed_slice", "colour") => start!(BsC((0..len).map(mk_c).collect::<Vec<C>>().into_boxed_slice())),
+        ("boxed_slice", "uint") => start!(BsU((0..len).map(tok).collect::<Vec<U>>().into_boxed_slice())),
+        ("vec", "colour") => match vec_cap(cap, (0..len).map(mk_c)) { Some(v) => start!(VecC(v)), None => false },
+        ("vec", "uint") => match vec_cap(cap, (0..len).map(tok)) { Some(v) => start!(VecU(v)), None => false },
+        (f, u) => { eprintln!("cast harness: no initial uint buffer {}/{}", f, u); std::process::exit(3) }
+    }
+}
+
+// ------------------------------------------------------------------------------------------- the type table
+
+/// make/read of a colour struct, generic in the component type, written BY FIELD NAME
+macro_rules! base {
+    ($mk:ident, $rd:ident, $nm:ident, $n:literal, $ty:ty, [$($name:literal),*], |$v:ident| $make:expr, |$c:ident| $read:expr) => {
+        fn $mk<T: Copy>($v: [T; $n]) -> $ty { $make }
+        fn $rd<T: Copy>($c: &$ty) -> [T; $n] { $read }
+        fn $nm() -> Vec<&'static str> { vec![$($name),*] }
+    };
+}
+const PH: PhantomData<()> = PhantomData;
+
+base!(mk_luma, rd_luma, nm_luma, 1, Luma<SrgbStd, T>, ["luma"], |v| Luma { luma: v[0], standard: PhantomData }, |c| [c.luma]);
+base!(mk_rgb, rd_rgb, nm_rgb, 3, Rgb<SrgbStd, T>, ["red", "green", "blue"],
+    |v| Rgb { red: v[0], green: v[1], blue: v[2], standard: PhantomData }, |c| [c.red, c.green, c.blue]);
+base!(mk_linrgb, rd_linrgb, nm_linrgb, 3, Rgb<Linear<SrgbStd>, T>, ["red", "green", "blue"],
+    |v| Rgb { blue: v[2], red: v[0], green: v[1], standard: PhantomData }, |c| [c.red, c.green, c.blue]);
+base!(mk_hsl, rd_hsl, nm_hsl, 3, Hsl<SrgbStd, T>, ["hue", "saturation", "lightness"],
+    |v| Hsl { hue: RgbHue::new(v[0]), saturation: v[1], lightness: v[2], standard: PhantomData },
+    |c| [c.hue.into_inner(), c.saturation, c.lightness]);
+base!(mk_hsv, rd_hsv, nm_hsv, 3, Hsv<SrgbStd, T>, ["hue", "saturation", "value"],
+    |v| Hsv { hue: RgbHue::new(v[0]), saturation: v[1], value: v[2], standard: PhantomData },
+    |c| [c.hue.into_inner(), c.saturation, c.value]);
+base!(mk_hwb, rd_hwb, nm_hwb, 3, Hwb<SrgbStd, T>, ["hue", "whiteness", "blackness"],
+    |v| Hwb { hue: RgbHue::new(v[0]), whiteness: v[1], blackness: v[2], standard: PhantomData },
+    |c| [c.hue.into_inner(), c.whiteness, c.blackness]);
+base!(mk_hsluv, rd_hsluv, nm_hsluv, 3, Hsluv<D65, T>, ["hue", "saturation", "l"],
+    |v| Hsluv { hue: LuvHue::new(v[0]), saturation: v[1], l: v[2], white_point: PhantomData },
+    |c| [c.hue.into_inner(), c.saturation, c.l]);
+base!(mk_lab, rd_lab, nm_lab, 3, Lab<D65, T>, ["l", "a", "b"],
+    |v| Lab { l: v[0], a: v[1], b: v[2], white_point: PhantomData }, |c| [c.l, c.a, c.b]);
+base!(mk_lch, rd_lch, nm_lch, 3, Lch<D65, T>, ["l", "chroma", "hue"],
+    |v| Lch { l: v[0], chroma: v[1], hue: LabHue::new(v[2]), white_point: PhantomData },
+    |c| [c.l, c.chroma, c.hue.into_inner()]);
+base!(mk_luv, rd_luv, nm_luv, 3, Luv<D65, T>, ["l", "u", "v"],
+    |v| Luv { l: v[0], u: v[1], v: v[2], white_point: PhantomData }, |c| [c.l, c.u, c.v]);
+base!(mk_lchuv, rd_lchuv, nm_lchuv, 3, Lchuv<D65, T>, ["l", "chroma", "hue"],
+    |v| Lchuv { l: v[0], chroma: v[1], hue: LuvHue::new(v[2]), white_point: PhantomData },
+    |c| [c.l, c.chroma, c.hue.into_inner()]);
+base!(mk_xyz, rd_xyz, nm_xyz, 3, Xyz<D65, T>, ["x", "y", "z"],
+    |v| Xyz { x: v[0], y: v[1], z: v[2], white_point: PhantomData }, |c| [c.x, c.y, c.z]);
+base!(mk_yxy, rd_yxy, nm_yxy, 3, Yxy<D65, T>, ["x", "y", "luma"],
+    |v| Yxy { x: v[0], y: v[1], luma: v[2], white_point: PhantomData }, |c| [c.x, c.y, c.luma]);
+base!(mk_lms, rd_lms, nm_lms, 3, Lms<(), T>, ["long", "medium", "short"],
+    |v| Lms { long: v[0], medium: v[1], short: v[2], meta: PH }, |c| [c.long, c.medium, c.short]);
+base!(mk_oklab, rd_oklab, nm_oklab, 3, Oklab<T>, ["l", "a", "b"], |v| Oklab { l: v[0], a: v[1], b: v[2] }, |c| [c.l, c.a, c.b]);
+base!(mk_oklch, rd_oklch, nm_oklch, 3, Oklch<T>, ["l", "chroma", "hue"],
+    |v| Oklch { l: v[0], chroma: v[1], hue: OklabHue::new(v[2]) }, |c| [c.l, c.chroma, c.hue.into_inner()]);
+base!(mk_okhsl, rd_okhsl, nm_okhsl, 3, Okhsl<T>, ["hue", "saturation", "lightness"],
+    |v| Okhsl { hue: OklabHue::new(v[0]), saturation: v[1], lightness: v[2] }, |c| [c.hue.into_inner(), c.saturation, c.lightness]);
+base!(mk_okhsv, rd_okhsv, nm_okhsv, 3, Okhsv<T>, ["hue", "saturation", "value"],
+    |v| Okhsv { hue: OklabHue::new(v[0]), saturation: v[1], value: v[2] }, |c| [c.hue.into_inner(), c.saturation, c.value]);
+base!(mk_okhwb, rd_okhwb, nm_okhwb, 3, Okhwb<T>, ["hue", "whiteness", "blackness"],
+    |v| Okhwb { hue: OklabHue::new(v[0]), whiteness: v[1], blackness: v[2] }, |c| [c.hue.into_inner(), c.whiteness, c.blackness]);
+base!(mk_ucsjab, rd_ucsjab, nm_ucsjab, 3, Cam16UcsJab<T>, ["lightness", "a", "b"],
+    |v| Cam16UcsJab { lightness: v[0], a: v[1], b: v[2] }, |c| [c.lightness, c.a, c.b]);
+base!(mk_ucsjmh, rd_ucsjmh, nm_ucsjmh, 3, Cam16UcsJmh<T>, ["lightness", "colorfulness", "hue"],
+    |v| Cam16UcsJmh { lightness: v[0], colorfulness: v[1], hue: Cam16Hue::new(v[2]) }, |c| [c.lightness, c.colorfulness, c.hue.into_inner()]);
+base!(mk_jch, rd_jch, nm_jch, 3, Cam16Jch<T>, ["lightness", "chroma", "hue"],
+    |v| Cam16Jch { lightness: v[0], chroma: v[1], hue: Cam16Hue::new(v[2]) }, |c| [c.lightness, c.chroma, c.hue.into_inner()]);
+base!(mk_jmh, rd_jmh, nm_jmh, 3, Cam16Jmh<T>, ["lightness", "colorfulness", "hue"],
+    |v| Cam16Jmh { lightness: v[0], colorfulness: v[1], hue: Cam16Hue::new(v[2]) }, |c| [c.lightness, c.colorfulness, c.hue.into_inner()]);
+base!(mk_jsh, rd_jsh, nm_jsh, 3, Cam16Jsh<T>, ["lightness", "saturation", "hue"],
+    |v| Cam16Jsh { lightness: v[0], saturation: v[1], hue: Cam16Hue::new(v[2]) }, |c| [c.lightness, c.saturation, c.hue.into_inner()]);
+base!(mk_qch, rd_qch, nm_qch, 3, Cam16Qch<T>, ["brightness", "chroma", "hue"],
+    |v| Cam16Qch { brightness: v[0], chroma: v[1], hue: Cam16Hue::new(v[2]) }, |c| [c.brightness, c.chroma, c.hue.into_inner()]);
+base!(mk_qmh, rd_qmh, nm_qmh, 3, Cam16Qmh<T>, ["brightness", "colorfulness", "hue"],
+    |v| Cam16Qmh { brightness: v[0], colorfulness: v[1], hue: Cam16Hue::new(v[2]) }, |c| [c.brightness, c.colorfulness, c.hue.into_inner()]);
+base!(mk_qsh, rd_qsh, nm_qsh, 3, Cam16Qsh<T>, ["brightness", "saturation", "hue"],
+    |v| Cam16Qsh { brightness: v[0], saturation: v[1], hue: Cam16Hue::new(v[2]) }, |c| [c.brightness, c.saturation, c.hue.into_inner()]);
+
+/// the std-trait spellings and the concrete-length array calls, identical text for every concrete type
+macro_rules! col_std {
+    ($k:ty, $n:literal) => {
+        fn s_into_array(self) -> [$k; $n] { self.into() }
+        fn s_from_array(a: [$k; $n]) -> Self { a.into() }
+        fn s_ref_into(&self) -> &[$k; $n] { self.as_ref() }
+        fn s_ref_from(a: &[$k; $n]) -> &Self { a.as_ref() }
+        fn s_mut_into(&mut self) -> &mut [$k; $n] { self.as_mut() }
+        fn s_mut_from(a: &mut [$k; $n]) -> &mut Self { a.as_mut() }
+        fn s_box_into(b: Box<Self>) -> Box<[$k; $n]> { b.into() }
+        fn s_box_from(b: Box<[$k; $n]>) -> Box<Self> { b.into() }
+        fn s_ref_slice(&self) -> &[$k] { self.as_ref() }
+        fn s_mut_slice(&mut self) -> &mut [$k] { self.as_mut() }
+        fn s_try_ref(s: &[$k]) -> Option<&Self> { <&Self>::try_from(s).ok() }
+        fn s_try_mut(s: &mut [$k]) -> Option<&mut Self> { <&mut Self>::try_from(s).ok() }
+        fn a_into_components(a: [Self; 2], api: u8) -> Vec<$k> {
+            let r: [$k; 2 * $n] = match api {
+                0 => cast::into_component_array(a),
+                1 => a.into_components(),
+                _ => <[$k; 2 * $n]>::components_from(a),
+            };
+            r.to_vec()
+        }
+        fn a_from_components(v: &[$k], api: u8) -> [Self; 2] {
+            if v.len() == 2 * $n {
+                let a: [$k; 2 * $n] = v.try_into().unwrap();
+                match api { 0 => cast::from_component_array(a), 1 => <[Self; 2]>::from_components(a), _ => a.components_into() }
+            } else {
+                let a: [$k; 2 * $n + 1] = v.try_into().unwrap();
+                match api { 0 => cast::from_component_array(a), 1 => <[Self; 2]>::from_components(a), _ => a.components_into() }
+            }
+        }
+    };
+}
+
+/// a plain colour struct
+macro_rules! col {
+    ($ty:ty, $k:ty, $n:literal, $tyname:literal, $base:literal, $partner:ty, $mk:ident, $rd:ident, $nm:ident) => {
+        impl Col<$k, $n> for $ty {
+            const TY: &'static str = concat!($tyname, "<", stringify!($k), ">");
+            const BASE: &'static str = $base;
+            const WRAP: &'static str = "none";
+            type Partner = $partner;
+            fn names() -> Vec<&'static str> { $nm() }
+            fn make(v: [$k; $n]) -> Self { $mk(v) }
+            fn read(&self) -> [$k; $n] { $rd(self) }
+            col_std!($k, $n);
+        }
+    };
+}
+/// Alpha<C, T> / PreAlpha<C>: the colour's fields by name, then `alpha`, by name
+macro_rules! col_alpha {
+    ($w:ident, $wrap:literal, $inner:ty, $k:ty, $n:literal, $ni:literal, $base:literal, $mk:ident, $rd:ident, $nm:ident, $($targ:ty),+) => {
+        impl Col<$k, $n> for $w<$($targ),+> {
+            const TY: &'static str = concat!($wrap, ":", $base, "<", stringify!($k), ">");
+            const BASE: &'static str = $base;
+            const WRAP: &'static str = $wrap;
+            type Partner = Self;
+            fn names() -> Vec<&'static str> { let mut v = $nm(); v.push("alpha"); v }
+            fn make(v: [$k; $n]) -> Self {
+                let inner: $inner = $mk(core::array::from_fn::<$k, $ni, _>(|j| v[j]));
+                $w { color: inner, alpha: v[$ni] }
+            }
+            fn read(&self) -> [$k; $n] {
+                let i: [$k; $ni] = $rd(&self.color);
+                core::array::from_fn(|j| if j < $ni { i[j] } else { self.alpha })
+            }
+            col_std!($k, $n);
+        }
+    };
+}
+macro_rules! alpha { ($inner:ty, $k:ty, $n:literal, $ni:literal, $base:literal, $mk:ident, $rd:ident, $nm:ident) => {
+    col_alpha!(Alpha, "alpha", $inner, $k, $n, $ni, $base, $mk, $rd, $nm, $inner, $k);
+}; }
+macro_rules! prealpha { ($inner:ty, $k:ty, $n:literal, $ni:literal, $base:literal, $mk:ident, $rd:ident, $nm:ident) => {
+    col_alpha!(PreAlpha, "prealpha", $inner, $k, $n, $ni, $base, $mk, $rd, $nm, $inner);
+}; }
+
+// n = 1
+col!(Luma<SrgbStd, u8>, u8, 1, "Luma", "Luma", Self, mk_luma, rd_luma, nm_luma);
+col!(Luma<SrgbStd, u16>, u16, 1, "Luma", "Luma", Self, mk_luma, rd_luma, nm_luma);
+col!(Luma<SrgbStd, u32>, u32, 1, "Luma", "Luma", Self, mk_luma, rd_luma, nm_luma);
+col!(Luma<SrgbStd, f32>, f32, 1, "Luma", "Luma", Self, mk_luma, rd_luma, nm_luma);
+col!(Luma<SrgbStd, f64>, f64, 1, "Luma", "Luma", Self, mk_luma, rd_luma, nm_luma);
+// n = 2
+alpha!(Luma<SrgbStd, u8>, u8, 2, 1, "Luma", mk_luma, rd_luma, nm_luma);
+alpha!(Luma<SrgbStd, u16>, u16, 2, 1, "Luma", mk_luma, rd_luma, nm_luma);
+alpha!(Luma<SrgbStd, u32>, u32, 2, 1, "Luma", mk_luma, rd_luma, nm_luma);
+alpha!(Luma<SrgbStd, f32>, f32, 2, 1, "Luma", mk_luma, rd_luma, nm_luma);
+alpha!(Luma<SrgbStd, f64>, f64, 2, 1, "Luma", mk_luma, rd_luma, nm_luma);
+prealpha!(Luma<SrgbStd, f32>, f32, 2, 1, "Luma", mk_luma, rd_luma, nm_luma);
+// n = 3
+col!(Rgb<SrgbStd, u8>, u8, 3, "Rgb", "Rgb", Rgb<Linear<SrgbStd>, u8>, mk_rgb, rd_rgb, nm_rgb);
+col!(Rgb<Linear<SrgbStd>, u8>, u8, 3, "LinRgb", "Rgb", Rgb<SrgbStd, u8>, mk_linrgb, rd_linrgb, nm_linrgb);
+col!(Rgb<SrgbStd, u16>, u16, 3, "Rgb", "Rgb", Self, mk_rgb, rd_rgb, nm_rgb);
+col!(Rgb<SrgbStd, u32>, u32, 3, "Rgb", "Rgb", Self, mk_rgb, rd_rgb, nm_rgb);
+col!(Rgb<SrgbStd, f32>, f32, 3, "Rgb", "Rgb", Rgb<Linear<SrgbStd>, f32>, mk_rgb, rd_rgb, nm_rgb);
+col!(Rgb<Linear<SrgbStd>, f32>, f32, 3, "LinRgb", "Rgb", Rgb<SrgbStd, f32>, mk_linrgb, rd_linrgb, nm_linrgb);
+col!(Rgb<SrgbStd, f64>, f64, 3, "Rgb", "Rgb", Self, mk_rgb, rd_rgb, nm_rgb);
+col!(Hsl<SrgbStd, f32>, f32, 3, "Hsl", "Hsl", Hsv<SrgbStd, f32>, mk_hsl, rd_hsl, nm_hsl);
+col!(Hsv<SrgbStd, f32>, f32, 3, "Hsv", "Hsv", Hsl<SrgbStd, f32>, mk_hsv, rd_hsv, nm_hsv);
+col!(Hsv<SrgbStd, u8>, u8, 3, "Hsv", "Hsv", Self, mk_hsv, rd_hsv, nm_hsv);
+col!(Hsl<SrgbStd, f64>, f64, 3, "Hsl", "Hsl", Self, mk_hsl, rd_hsl, nm_hsl);
+col!(Hwb<SrgbStd, f32>, f32, 3, "Hwb", "Hwb", Self, mk_hwb, rd_hwb, nm_hwb);
+col!(Hwb<SrgbStd, f64>, f64, 3, "Hwb", "Hwb", Self, mk_hwb, rd_hwb, nm_hwb);
+col!(Hsluv<D65, f32>, f32, 3, "Hsluv", "Hsluv", Self, mk_hsluv, rd_hsluv, nm_hsluv);
+col!(Hsluv<D65, f64>, f64, 3, "Hsluv", "Hsluv", Self, mk_hsluv, rd_hsluv, nm_hsluv);
+col!(Lab<D65, f32>, f32, 3, "Lab", "Lab", Luv<D65, f32>, mk_lab, rd_lab, nm_lab);
+col!(Luv<D65, f32>, f32, 3, "Luv", "Luv", Lab<D65, f32>, mk_luv, rd_luv, nm_luv);
+col!(Lab<D65, f64>, f64, 3, "Lab", "Lab", Self, mk_lab, rd_lab, nm_lab);
+col!(Luv<D65, f64>, f64, 3, "Luv", "Luv", Self, mk_luv, rd_luv, nm_luv);
+col!(Lch<D65, f32>, f32, 3, "Lch", "Lch", Lchuv<D65, f32>, mk_lch, rd_lch, nm_lch);
+col!(Lchuv<D65, f32>, f32, 3, "Lchuv", "Lchuv", Lch<D65, f32>, mk_lchuv, rd_lchuv, nm_lchuv);
+col!(Lch<D65, f64>, f64, 3, "Lch", "Lch", Self, mk_lch, rd_lch, nm_lch);
+col!(Lchuv<D65, f64>, f64, 3, "Lchuv", "Lchuv", Self, mk_lchuv, rd_lchuv, nm_lchuv);
+col!(Xyz<D65, f32>, f32, 3, "Xyz", "Xyz", Yxy<D65, f32>, mk_xyz, rd_xyz, nm_xyz);
+col!(Yxy<D65, f32>, f32, 3, "Yxy", "Yxy", Xyz<D65, f32>, mk_yxy, rd_yxy, nm_yxy);
+col!(Xyz<D65, f64>, f64, 3, "Xyz", "Xyz", Self, mk_xyz, rd_xyz, nm_xyz);
+col!(Yxy<D65, f64>, f64, 3, "Yxy", "Yxy", Self, mk_yxy, rd_yxy, nm_yxy);
+col!(Lms<(), f32>, f32, 3, "Lms", "Lms", Self, mk_lms, rd_lms, nm_lms);
+col!(Lms<(), f64>, f64, 3, "Lms", "Lms", Self, mk_lms, rd_lms, nm_lms);
+col!(Oklab<f32>, f32, 3, "Oklab", "Oklab", Oklch<f32>, mk_oklab, rd_oklab, nm_oklab);
+col!(Oklch<f32>, f32, 3, "Oklch", "Oklch", Oklab<f32>, mk_oklch, rd_oklch, nm_oklch);
+col!(Oklab<f64>, f64, 3, "Oklab", "Oklab", Self, mk_oklab, rd_oklab, nm_oklab);
+col!(Oklch<f64>, f64, 3, "Oklch", "Oklch", Self, mk_oklch, rd_oklch, nm_oklch);
+col!(Okhsl<f32>, f32, 3, "Okhsl", "Okhsl", Self, mk_okhsl, rd_okhsl, nm_okhsl);
+col!(Okhsl<f64>, f64, 3, "Okhsl", "Okhsl", Self, mk_okhsl, rd_okhsl, nm_okhsl);
+col!(Okhsv<f32>, f32, 3, "Okhsv", "Okhsv", Self, mk_okhsv, rd_okhsv, nm_okhsv);
+col!(Okhsv<f64>, f64, 3, "Okhsv", "Okhsv", Self, mk_okhsv, rd_okhsv, nm_okhsv);
+col!(Okhwb<f32>, f32, 3, "Okhwb", "Okhwb", Self, mk_okhwb, rd_okhwb, nm_okhwb);
+col!(Okhwb<f64>, f64, 3, "Okhwb", "Okhwb", Self, mk_okhwb, rd_okhwb, nm_okhwb);
+col!(Cam16UcsJab<f32>, f32, 3, "Cam16UcsJab", "Cam16UcsJab", Self, mk_ucsjab, rd_ucsjab, nm_ucsjab);
+col!(Cam16UcsJab<f64>, f64, 3, "Cam16UcsJab", "Cam16UcsJab", Self, mk_ucsjab, rd_ucsjab, nm_ucsjab);
+col!(Cam16UcsJmh<f32>, f32, 3, "Cam16UcsJmh", "Cam16UcsJmh", Self, mk_ucsjmh, rd_ucsjmh, nm_ucsjmh);
+col!(Cam16UcsJmh<f64>, f64, 3, "Cam16UcsJmh", "Cam16UcsJmh", Self, mk_ucsjmh, rd_ucsjmh, nm_ucsjmh);
+col!(Cam16Jch<f32>, f32, 3, "Cam16Jch", "Cam16Jch", Self, mk_jch, rd_jch, nm_jch);
+col!(Cam16Jmh<f64>, f64, 3, "Cam16Jmh", "Cam16Jmh", Self, mk_jmh, rd_jmh, nm_jmh);
+col!(Cam16Jsh<f32>, f32, 3, "Cam16Jsh", "Cam16Jsh", Self, mk_jsh, rd_jsh, nm_jsh);
+col!(Cam16Qch<f64>, f64, 3, "Cam16Qch", "Cam16Qch", Self, mk_qch, rd_qch, nm_qch);
+col!(Cam16Qmh<f32>, f32, 3, "Cam16Qmh", "Cam16Qmh", Self, mk_qmh, rd_qmh, nm_qmh);
+col!(Cam16Qsh<f64>, f64, 3, "Cam16Qsh", "Cam16Qsh", Self, mk_qsh, rd_qsh, nm_qsh);
+// n = 4
+alpha!(Rgb<SrgbStd, u8>, u8, 4, 3, "Rgb", mk_rgb, rd_rgb, nm_rgb);
+alpha!(Rgb<SrgbStd, u16>, u16, 4, 3, "Rgb", mk_rgb, rd_rgb, nm_rgb);
+alpha!(Rgb<SrgbStd, u32>, u32, 4, 3, "Rgb", mk_rgb, rd_rgb, nm_rgb);
+alpha!(Rgb<SrgbStd, f32>, f32, 4, 3, "Rgb", mk_rgb, rd_rgb, nm_rgb);
+alpha!(Rgb<SrgbStd, f64>, f64, 4, 3, "Rgb", mk_rgb, rd_rgb, nm_rgb);
+alpha!(Hsv<SrgbStd, f32>, f32, 4, 3, "Hsv", mk_hsv, rd_hsv, nm_hsv);
+alpha!(Hsl<SrgbStd, f64>, f64, 4, 3, "Hsl", mk_hsl, rd_hsl, nm_hsl);
+alpha!(Hwb<SrgbStd, f32>, f32, 4, 3, "Hwb", mk_hwb, rd_hwb, nm_hwb);
+alpha!(Lab<D65, f64>, f64, 4, 3, "Lab", mk_lab, rd_lab, nm_lab);
+alpha!(Lch<D65, f32>, f32, 4, 3, "Lch", mk_lch, rd_lch, nm_lch);
+alpha!(Lchuv<D65, f64>, f64, 4, 3, "Lchuv", mk_lchuv, rd_lchuv, nm_lchuv);
+alpha!(Xyz<D65, f32>, f32, 4, 3, "Xyz", mk_xyz, rd_xyz, nm_xyz);
+alpha!(Yxy<D65, f64>, f64, 4, 3, "Yxy", mk_yxy, rd_yxy, nm_yxy);
+alpha!(Oklab<f32>, f32, 4, 3, "Oklab", mk_oklab, rd_oklab, nm_oklab);
+alpha!(Oklch<f64>, f64, 4, 3, "Oklch", mk_oklch, rd_oklch, nm_oklch);
+alpha!(Okhsv<f32>, f32, 4, 3, "Okhsv", mk_okhsv, rd_okhsv, nm_okhsv);
+alpha!(Cam16UcsJmh<f32>, f32, 4, 3, "Cam16UcsJmh", mk_ucsjmh, rd_ucsjmh, nm_ucsjmh);
+alpha!(Cam16Jch<f32>, f32, 4, 3, "Cam16Jch", mk_jch, rd_jch, nm_jch);
+prealpha!(Rgb<Linear<SrgbStd>, f32>, f32, 4, 3, "Rgb", mk_linrgb, rd_linrgb, nm_linrgb);
+prealpha!(Rgb<SrgbStd, f64>, f64, 4, 3, "Rgb", mk_rgb, rd_rgb, nm_rgb);
+prealpha!(Lab<D65, f32>, f32, 4, 3, "Lab", mk_lab, rd_lab, nm_lab);
+prealpha!(Oklab<f64>, f64, 4, 3, "Oklab", mk_oklab, rd_oklab, nm_oklab);
+prealpha!(Xyz<D65, f64>, f64, 4, 3, "Xyz", mk_xyz, rd_xyz, nm_xyz);
+
+/// Packed<O, [T; 4]>: the stored array, by field name `color`
+macro_rules! packed4 {
+    ($o:ty, $oname:literal, $k:ty) => {
+        impl Col<$k, 4> for Packed<$o, [$k; 4]> {
+            const TY: &'static str = concat!("Packed<", $oname, ",[", stringify!($k), ";4]>");
+            const BASE: &'static str = "Packed4";
+            const WRAP: &'static str = "none";
+            type Partner = Self;
+            fn names() -> Vec<&'static str> { vec!["color.0", "color.1", "color.2", "color.3"] }
+            fn make(v: [$k; 4]) -> Self { Packed { color: v, channel_order: PhantomData } }
+            fn read(&self) -> [$k; 4] { self.color }
+            col_std!($k, 4);
+        }
+    };
+}
+packed4!(palette::rgb::channels::Rgba, "Rgba", u8);
+packed4!(palette::rgb::channels::Argb, "Argb", u16);
+packed4!(palette::rgb::channels::Bgra, "Bgra", f32);
+packed4!(palette::rgb::channels::Abgr, "Abgr", u32);
+
+macro_rules! ucol {
+    ($ty:ty, $u:ty, $tyname:expr, $base:literal, [$name:literal], |$v:ident| $make:expr, |$c:ident| $read:expr) => {
+        impl UCol<$u> for $ty {
+            const TY: &'static str = $tyname;
+            const BASE: &'static str = $base;
+            fn names() -> Vec<&'static str> { vec![$name] }
+            fn make($v: $u) -> Self { $make }
+            fn read(&self) -> $u { let $c = self; $read }
+            fn s_into(self) -> $u { self.into() }
+            fn s_from(u: $u) -> Self { u.into() }
+            fn s_ref_into(&self) -> &$u { self.as_ref() }
+            fn s_ref_from(u: &$u) -> &Self { u.as_ref() }
+            fn s_mut_into(&mut self) -> &mut $u { self.as_mut() }
+            fn s_mut_from(u: &mut $u) -> &mut Self { u.as_mut() }
+        }
+    };
+}
+macro_rules! ucols {
+    ($($u:ident),*) => {$(
+        ucol!(Packed<palette::rgb::channels::Rgba, $u>, $u, concat!("Packed<Rgba,", stringify!($u), ">"), "Packed1", ["color"],
+            |v| Packed { color: v, channel_order: PhantomData }, |c| c.color);
+        ucol!(Luma<SrgbStd, $u>, $u, concat!("Luma<", stringify!($u), ">:uint"), "Luma", ["luma"],
+            |v| Luma { luma: v, standard: PhantomData }, |c| c.luma);
+    )*};
+}
+ucols!(u8, u16, u32, u64, u128);
+
+struct Ty {
+    name: &'static str,
+    fam: &'static str,
+    n: usize,
+    run: fn(&Init, &[Op], &mut Rec) -> bool,
+}
+
+fn table() -> Vec<Ty> {
+    let mut t = vec![];
+    macro_rules! arr { ($($ty:ty, $k:ty, $n:literal);* $(;)?) => {$(
+        t.push(Ty { name: <$ty as Col<$k, $n>>::TY, fam: "arr", n: $n, run: run_arr::<$ty, $k, $n> });
+    )*}; }
+    macro_rules! uint { ($($ty:ty, $u:ty);* $(;)?) => {$(
+        t.push(Ty { name: <$ty as UCol<$u>>::TY, fam: "uint", n: 1, run: run_uint::<$ty, $u> });
+    )*}; }
+    arr!(Luma<SrgbStd, u8>, u8, 1; Luma<SrgbStd, u16>, u16, 1; Luma<SrgbStd, u32>, u32, 1; Luma<SrgbStd, f32>, f32, 1; Luma<SrgbStd, f64>, f64, 1;
+         Alpha<Luma<SrgbStd, u8>, u8>, u8, 2; Alpha<Luma<SrgbStd, u16>, u16>, u16, 2; Alpha<Luma<SrgbStd, u32>, u32>, u32, 2;
+         Alpha<Luma<SrgbStd, f32>, f32>, f32, 2; Alpha<Luma<SrgbStd, f64>, f64>, f64, 2; PreAlpha<Luma<SrgbStd, f32>>, f32, 2;
+         Rgb<SrgbStd, u8>, u8, 3; Rgb<Linear<SrgbStd>, u8>, u8, 3; Rgb<SrgbStd, u16>, u16, 3; Rgb<SrgbStd, u32>, u32, 3;
+         Rgb<SrgbStd, f32>, f32, 3; Rgb<Linear<SrgbStd>, f32>, f32, 3; Rgb<SrgbStd, f64>, f64, 3;
+         Hsl<SrgbStd, f32>, f32, 3; Hsv<SrgbStd, f32>, f32, 3; Hsv<SrgbStd, u8>, u8, 3; Hsl<SrgbStd, f64>, f64, 3;
+         Hwb<SrgbStd, f32>, f32, 3; Hwb<SrgbStd, f64>, f64, 3; Hsluv<D65, f32>, f32, 3; Hsluv<D65, f64>, f64, 3;
+         Lab<D65, f32>, f32, 3; Luv<D65, f32>, f32, 3; Lab<D65, f64>, f64, 3; Luv<D65, f64>, f64, 3;
+         Lch<D65, f32>, f32, 3; Lchuv<D65, f32>, f32, 3; Lch<D65, f64>, f64, 3; Lchuv<D65, f64>, f64, 3;
+         Xyz<D65, f32>, f32, 3; Yxy<D65, f32>, f32, 3; Xyz<D65, f64>, f64, 3; Yxy<D65, f64>, f64, 3;
+         Lms<(), f32>, f32, 3; Lms<(), f64>, f64, 3;
+         Oklab<f32>, f32, 3; Oklch<f32>, f32, 3; Oklab<f64>, f64, 3; Oklch<f64>, f64, 3;
+         Okhsl<f32>, f32, 3; Okhsl<f64>, f64, 3; Okhsv<f32>, f32, 3; Okhsv<f64>, f64, 3; Okhwb<f32>, f32, 3; Okhwb<f64>, f64, 3;
+         Cam16UcsJab<f32>, f32, 3; Cam16UcsJab<f64>, f64, 3; Cam16UcsJmh<f32>, f32, 3; Cam16UcsJmh<f64>, f64, 3;
+         Cam16Jch<f32>, f32, 3; Cam16Jmh<f64>, f64, 3; Cam16Jsh<f32>, f32, 3; Cam16Qch<f64>, f64, 3; Cam16Qmh<f32>, f32, 3; Cam16Qsh<f64>, f64, 3;
+         Alpha<Rgb<SrgbStd, u8>, u8>, u8, 4; Alpha<Rgb<SrgbStd, u16>, u16>, u16, 4; Alpha<Rgb<SrgbStd, u32>, u32>, u32, 4;
+         Alpha<Rgb<SrgbStd, f32>, f32>, f32, 4; Alpha<Rgb<SrgbStd, f64>, f64>, f64, 4;
+         Alpha<Hsv<SrgbStd, f32>, f32>, f32, 4; Alpha<Hsl<SrgbStd, f64>, f64>, f64, 4; Alpha<Hwb<SrgbStd, f32>, f32>, f32, 4;
+         Alpha<Lab<D65, f64>, f64>, f64, 4; Alpha<Lch<D65, f32>, f32>, f32, 4; Alpha<Lchuv<D65, f64>, f64>, f64, 4;
+         Alpha<Xyz<D65, f32>, f32>, f32, 4; Alpha<Yxy<D65, f64>, f64>, f64, 4; Alpha<Oklab<f32>, f32>, f32, 4;
+         Alpha<Oklch<f64>, f64>, f64, 4; Alpha<Okhsv<f32>, f32>, f32, 4; Alpha<Cam16UcsJmh<f32>, f32>, f32, 4; Alpha<Cam16Jch<f32>, f32>, f32, 4;
+         PreAlpha<Rgb<Linear<SrgbStd>, f32>>, f32, 4; PreAlpha<Rgb<SrgbStd, f64>>, f64, 4; PreAlpha<Lab<D65, f32>>, f32, 4;
+         PreAlpha<Oklab<f64>>, f64, 4; PreAlpha<Xyz<D65, f64>>, f64, 4;
+         Packed<palette::rgb::channels::Rgba, [u8; 4]>, u8, 4; Packed<palette::rgb::channels::Argb, [u16; 4]>, u16, 4;
+         Packed<palette::rgb::channels::Bgra, [f32; 4]>, f32, 4; Packed<palette::rgb::channels::Abgr, [u32; 4]>, u32, 4;);
+    uint!(Packed<palette::rgb::channels::Rgba, u8>, u8; Packed<palette::rgb::channels::Rgba, u16>, u16;
+          Packed<palette::rgb::channels::Rgba, u32>, u32; Packed<palette::rgb::channels::Rgba, u64>, u64;
+          Packed<palette::rgb::channels::Rgba, u128>, u128;
+          Luma<SrgbStd, u8>, u8; Luma<SrgbStd, u16>, u16; Luma<SrgbStd, u32>, u32; Luma<SrgbStd, u64>, u64; Luma<SrgbStd, u128>, u128;);
+    t
+}
+
+fn main() {
+    let tab = table();
+    if flag("--list") {
+        for t in &tab { println!("{}\t{}\t{}", t.name, t.fam, t.n); }
+        return;
+    }
+    let out = arg_or("--out", "-");
+    let types = arg_or("--types", "all");
+    let rotate: usize = arg_or("--rotate", "0").parse().expect("--rotate");
+    let hist = arg("--hist").expect("--hist <file>");
+    let text = std::fs::read_to_string(&hist).expect("chain file");
+    let sel: Vec<&Ty> = tab.iter().filter(|t| types == "all" || types.split(',').any(|x| x == t.name)).collect();
+    if sel.is_empty() { eprintln!("cast harness: no such type: {}", types); std::process::exit(3) }
+    let mut rec = Rec::create(&out);
+    // --crashlog: name every scenario (unbuffered) before it runs, so that the driver can tell which one killed the
+    // process when a cast trips a non-unwinding check or a signal
+    let mut crashlog = arg("--crashlog").map(|p| std::fs::File::create(p).expect("crashlog"));
+    let (mut scen, mut skipped, mut chains) = (0u64, 0u64, 0u64);
+    let mut per_type = std::collections::BTreeMap::<&str, u64>::new();
+    for (i, line) in text.lines().filter(|l| !l.trim().is_empty()).enumerate() {
+        let (ini, ops) = parse_chain(line);
+        chains += 1;
+        let cands: Vec<&&Ty> = sel.iter().filter(|t| t.fam == ini.fam && t.n == ini.n).collect();
+        if cands.is_empty() { continue; }
+        let picks: Vec<usize> = if rotate == 0 || rotate >= cands.len() {
+            (0..cands.len()).collect()
+        } else {
+            (0..rotate).map(|j| (i * rotate + j) % cands.len()).collect()
+        };
+        for p in picks {
+            let t = cands[p];
+            if let Some(f) = crashlog.as_mut() {
+                use std::io::Write;
+                let _ = f.write_all(format!("{}\t{}\n", t.name, line).as_bytes());
+            }
+            if (t.run)(&ini, &ops, &mut rec) { scen += 1; *per_type.entry(t.name).or_default() += 1; } else { skipped += 1; }
+        }
+    }
+    let n = rec.finish();
+    let least = per_type.values().min().copied().unwrap_or(0);
+    eprintln!("cast: {} chains, {} scenarios on {} types (least covered type: {}), {} skipped (allocator capacity), {} events",
+              chains, scen, per_type.len(), least, skipped, n);
 }
